@@ -239,6 +239,12 @@ def run(ctx):
                 obs = ('ok', out)
                 line, e = model_line(kp, c, K)
         except Exception as ex:
+            if 'infinity' in str(ex) or 'NaN' in str(ex):
+                # the integer trajectory left the floating-point range (quadratic pipelines grow doubly exponentially):
+                # outside the exactly representable domain of this correspondence, and the divergence handling of the
+                # code is floating-point behaviour (see C20 / F-diverge)
+                ctx.count('rejected:values overflow')
+                continue
             ctx.mismatch(f'predict_trajectory raised {type(ex).__name__}: {ex}', c, None, None)
             continue
         if obs[0] == 'ok' and (not np.all(np.isfinite(obs[1])) or np.max(np.abs(obs[1])) > 2 ** 50):
